@@ -9,3 +9,4 @@ pub mod eng_writer;
 pub mod eng_repair;
 pub mod eng_reader;
 pub mod eng_transfer;
+pub mod eng_tamper;
